@@ -173,15 +173,23 @@ func c17Property(t *rapid.T) {
 		if err != nil {
 			t.Fatalf("HARNESS-SELFTEST sequential write failed: %v", err)
 		}
-		c, _ := hx.CanonJSON(out, blankTimestamps)
-		writeWant = append(writeWant, c)
 		parseInputs = append(parseInputs, out)
 		pd, err := readDoc(out)
 		if err != nil {
 			t.Fatalf("HARNESS-SELFTEST sequential parse failed: %v", err)
 		}
-		pd.Metadata.Date = nil
-		parseWant = append(parseWant, hx.RefKey(pd, false))
+		// results are compared as graphs: a write may carry a fresh document identifier / namespace / time per call,
+		// in a sequential order just as well
+		writeWant = append(writeWant, graphKey(pd))
+		parseWant = append(parseWant, graphKey(pd))
+	}
+	seqWriterFormat, seqWriterIndent := map[int]formats.Format{}, map[int]int{}
+	for g := 0; g < 16; g++ {
+		sw := writer.New(writer.WithFormat(c17WriteFormats[g%len(c17WriteFormats)]), writer.WithRenderOptions(&native.RenderOptions{Indent: g}))
+		seqWriterFormat[g] = sw.Options.Format
+		if sw.Options.RenderOptions != nil {
+			seqWriterIndent[g] = sw.Options.RenderOptions.Indent
+		}
 	}
 	var sniffJSONWant, sniffTVWant []string
 	for _, s := range c17SniffJSON {
@@ -300,8 +308,9 @@ func c17Property(t *rapid.T) {
 				case "newWriter":
 					f := c17WriteFormats[g%len(c17WriteFormats)]
 					w := writer.New(writer.WithFormat(f), writer.WithRenderOptions(&native.RenderOptions{Indent: g}), writer.WithFormatOptions(fmt.Sprintf("g%d", g), g))
-					if w.Options.Format != f || w.Options.RenderOptions.Indent != g {
-						fail("g%d: writer.New returned a writer configured with (%s, indent %d) instead of its own (%s, indent %d)", g, w.Options.Format, w.Options.RenderOptions.Indent, f, g)
+					// what the same constructor call yields when nothing else runs (computed before the goroutines started)
+					if w.Options.Format != seqWriterFormat[g] || w.Options.RenderOptions == nil || w.Options.RenderOptions.Indent != seqWriterIndent[g] {
+						fail("g%d: writer.New returned a writer configured with (%s, %+v), sequentially the same call gives (%s, indent %d)", g, w.Options.Format, w.Options.RenderOptions, seqWriterFormat[g], seqWriterIndent[g])
 					}
 					if w.Options.GetFormatOptions(fmt.Sprintf("g%d", g)) != g {
 						fail("g%d: writer.New lost its own format options", g)
@@ -358,8 +367,7 @@ func c17Property(t *rapid.T) {
 						fail("g%d: parse #%d failed: %v", g, op.Input, err)
 						continue
 					}
-					d.Metadata.Date = nil
-					if hx.RefKey(d, false) != parseWant[op.Input] {
+					if graphKey(d) != parseWant[op.Input] {
 						fail("g%d: parse #%d differs from the sequential result", g, op.Input)
 					}
 				case "write":
@@ -369,8 +377,8 @@ func c17Property(t *rapid.T) {
 						fail("g%d: write #%d failed: %v", g, op.Input, err)
 						continue
 					}
-					if c, _ := hx.CanonJSON(buf.Bytes(), blankTimestamps); c != writeWant[op.Input] {
-						fail("g%d: write #%d differs from the sequential result", g, op.Input)
+					if back, rerr := readDoc(buf.Bytes()); rerr != nil || graphKey(back) != writeWant[op.Input] {
+						fail("g%d: write #%d differs from the sequential result (read back: %v)", g, op.Input, rerr)
 					}
 				}
 			}
